@@ -754,6 +754,12 @@ func (g *Gen) orderLimit(t *Table, force bool) ([]sqlast.Ord, int) {
 }
 
 func (g *Gen) update(tn string, t *Table, ignore bool) *Stmt {
+	// steering around the known finding "UPDATE IGNORE edits the table under its own scan": mostly
+	// UPDATE IGNORE .. ORDER BY <primary key> (the sort reads every row before the first edit)
+	safeIgnore := ignore && !g.chance(0.07)
+	if safeIgnore && len(t.PK) == 0 {
+		ignore, safeIgnore = false, false
+	}
 	var keyCols, otherCols []int
 	for _, c := range g.insertable(t) {
 		if t.Cols[c-1].Auto {
@@ -800,18 +806,8 @@ func (g *Gen) update(tn string, t *Table, ignore bool) *Stmt {
 	if len(set) == 0 {
 		return nil
 	}
-	order, limit := g.orderLimit(t, ignore && touchesKey)
-	where := g.where(tn, t, 1)
-	if ignore && !g.chance(0.05) {
-		// steering around the known finding "UPDATE IGNORE re-visits rows it moved inside the index it scans"
-		for try := 0; try < 8 && RefersTo(where, used); try++ {
-			where = g.where(tn, t, 1)
-		}
-		if RefersTo(where, used) {
-			where = sqlast.True()
-		}
-	}
-	return Update(tn, ignore, set, where, order, limit)
+	order, limit := g.orderLimit(t, ignore && (touchesKey || safeIgnore))
+	return Update(tn, ignore, set, g.where(tn, t, 1), order, limit)
 }
 
 func (g *Gen) setExpr(tn string, t *Table, c int) *Expr {
